@@ -42,8 +42,8 @@ prop("C03", title="allocator contract", equiv=["EquivGrow.grow_equiv", "EquivDro
 prop("C04", title="panic safety", equiv=["EquivDrain.filter_guard_equiv"], trusted=[HAND, EXTR, UBDEF])
 prop("C05", title="forget safety", equiv=["EquivDrain.drain_filter_equiv"], trusted=[HAND, EXTR, UBDEF])
 prop("C06", title="never-allocated vector", equiv=["EquivAsPtr.as_ptr_equiv", "EquivAsPtr.new_equiv"], trusted=[HAND, EXTR, UBDEF], profiles="dr")
-prop("C07", title="capacity honest / reservation contract / stability", equiv=["EquivCap.len_equiv", "EquivCap.capacity_equiv", "EquivCap.reserve_exact_equiv", "EquivCap.shrink_to_fit_equiv", "EquivCap.shrink_to_equiv", "EquivReserve.reserve_equiv", "EquivReserve.reserve_equiv_policy"], trusted=[HAND, EXTR])
-prop("C08", title="alignment", equiv=["EquivAlign.alignment_equiv", "EquivMaxAlign.max_align_equiv"], trusted=[HAND, EXTR])
+prop("C07", title="capacity honest / reservation contract / stability", equiv=["EquivCap.len_equiv", "EquivCap.capacity_equiv", "EquivCap.reserve_exact_equiv", "EquivCap.shrink_to_fit_equiv", "EquivCap.shrink_to_equiv", "EquivReserve.reserve_equiv", "EquivReserve.reserve_equiv_policy", "EquivCtor.with_capacity_equiv"], trusted=[HAND, EXTR])
+prop("C08", title="alignment", equiv=["EquivAlign.alignment_equiv", "EquivMaxAlign.max_align_equiv", "EquivCtor.with_alignment_equiv"], trusted=[HAND, EXTR])
 prop("C09", title="impossible sizes", equiv=["next_aligned_equiv", "make_layout_equiv"], quick_n=480, thorough_n=4000, child_timeout=15,
      trusted=[HAND, EXTR, "Eval.v's reading of usize arithmetic (panic in debug, wrap in release), checked_add/checked_mul and Layout::from_size_align"])
 prop("C10", title="iterator protocol", equiv=["EquivIter.drain_next_equiv", "EquivIter.drain_next_back_equiv", "EquivIter.into_next_equiv", "EquivIter.into_next_back_equiv", "EquivIter.into_len_equiv", "EquivIter.into_size_hint_equiv", "EquivDrain.into_new_equiv", "EquivIter.splice_next_equiv", "EquivIter.splice_next_back_equiv", "EquivIter.drain_size_hint_equiv", "EquivIter.splice_size_hint_equiv", "EquivFilter.loop_equivF", "EquivFilter.filter_next_equiv"], trusted=[HAND, EXTR])
